@@ -158,8 +158,13 @@ class TxLock(SimRLock):
         self._wake()
         sim.count('txwin_opened')
         c0 = self.commit_count() if self.commit_count else 0
+        # how long the transaction stays parked: it gives the baton back
+        # this many times before it asks for the lock again, so that other
+        # nodes can get several transactions through
+        hold = (1, 1, 4, 12)[sim.draw(4, '?winhold')]
         try:
-            sim.yield_point('txwin', what, force=True)
+            for _ in range(hold):
+                sim.yield_point('txwin', what, force=True)
             while self.owner is not None:
                 self.waiters.append(me)
                 sim.block(self, 'lock', self.name + ':resume')
